@@ -32,7 +32,10 @@ for p in sorted(glob.glob(os.path.join(V, "seeded", "*", "meta.json"))):
     sid = os.path.basename(os.path.dirname(p))
     needs = (m.get("needs") or "").replace("|", "/").replace("\n", " ")
     summ = (m.get("summary") or "").replace("|", "/").replace("\n", " ")
-    print("| %s | %s — needs: %s | %s: `%s` | %s |" % (sid, summ[:160], needs[:200], v.get("detected_by"), v.get("violation_class"), (v.get("history") or "").replace("|", "/")))
+    caught = v.get("detected_by") or "?"
+    if v.get("violation_class"):
+        caught += ": `%s`" % v["violation_class"]
+    print("| %s | %s — needs: %s | %s | %s |" % (sid, summ[:160], needs[:200], caught, (v.get("history") or "").replace("|", "/")))
 
 # --- per-check table
 import importlib, sys
